@@ -378,6 +378,8 @@ func run(c lib.Case) (lib.Out, any) {
 			lines = append(lines, objs[r.I("ref")].Hash.String()+" "+r.S("name")+"\n")
 		}
 		must(os.WriteFile(filepath.Join(pre, "packed-refs"), []byte(strings.Join(lines, "")), 0o644))
+	} else if c.Bool("packed_empty") {
+		must(os.WriteFile(filepath.Join(pre, "packed-refs"), nil, 0o644))
 	}
 	must(b11rec.CopyTree(pre, live))
 	rec := &b11rec.Rec{}
@@ -425,7 +427,7 @@ func run(c lib.Case) (lib.Out, any) {
 	verdict := func(where string) bool {
 		states++
 		r := judge(work)
-		if r == "" && useFsck {
+		if r == "" && useFsck && (strings.HasPrefix(where, "after") || strings.HasPrefix(where, "initial") || strings.HasSuffix(where, "torn")) {
 			r = fsck(work)
 		}
 		if r != "" {
